@@ -1059,7 +1059,7 @@ def run(ctx):
             combine_case(ctx, B, ml, cb, r["core"], r["aps"], r["subs"], variants)
             ctx.count("corpus.combine")
     q = ctx.quick()
-    njoin = 250 if q else 9000
+    njoin = 250 if q else 7000
     for i in range(njoin):
         ctx.check_deadline()
         pose = rng.weighted([("general", 6), ("parallel", 2), ("antiparallel", 2), ("near-parallel", 2), ("near-antiparallel", 2),
